@@ -1451,7 +1451,9 @@ class Container:
         x, y = numpy.linalg.solve(a, b)
         # an amount of zero comes out of the solver as noise of either sign (no solvent is needed for the stock's own
         # concentration): noise is relative to the other amount - the last digits of a float - never an absolute volume
-        x, y = (0. if abs(value) <= 1e-14 * (abs(x) + abs(y)) else value for value in (x, y))
+        # (... and one stored digit of the solute: the stock's own concentration is known no better than that)
+        negligible = 1e-14 + 10 ** -config.internal_precision / source.contents[solute]
+        x, y = (0. if abs(value) <= negligible * (abs(x) + abs(y)) else value for value in (x, y))
         if x < 0 or y < 0:
             raise ValueError("Solution is impossible to create.")
 
